@@ -672,7 +672,8 @@ PARTS = [Part("histories", strategy=lambda tier: histories(tier), run=run_histor
 
 # ---------------------------------------------------------------------------------------------------
 # Sensitivity record (scratch copy of /repo/tradingenv, one mutant at a time,
-# `VERIF_PKG_ROOT=<scratch> ./check C14 --tier quick --no-evidence`, VERIF_SEED=1; M6/M8/M9 also seeds 2-3).
+# `VERIF_PKG_ROOT=<scratch> ./check C14 --tier quick --no-evidence`, VERIF_SEED=1; M6/M8/M9 also seeds 2-3;
+# the whole list was re-run after the observation modes and the month offsets were added).
 # Every mutant: exit 1 + VIOLATION, shrunk to 1-4 ops.
 #   M1  process_EventNBBO updates dead books too                       caught (d, q -> price on a dead book)
 #   M2  terminate() drops the history                                  caught (q, d -> history empty)
@@ -692,6 +693,13 @@ PARTS = [Part("histories", strategy=lambda tier: histories(tier), run=run_histor
 #                                                                       ('BRK.b', 'spy' next to 'SPY') were added
 #   M14 default (infinite) bid size not stored                         caught
 #   M15 discontinuation ignored for a never-quoted book                caught
+#   M16 static_hashing applies the month offset with the wrong sign    caught (needs chains with month >= 1)
+#   M17 discontinuation only for books already in Exchange._books (`.get`)   caught (needs observe != "every")
+#   seeded/C14_A (discontinuation guarded by `event.contract in self._books`)   CAUGHT: was MISSED while every case
+#       compared the whole exchange after every op, because that read creates every book (defaultdict);
+#       observe="touched"/"end" plus 0-2 leading discontinuations fixed it.
+#   seeded/C14_B (static_hashing adds FutureChain month offset twice)           CAUGHT: was MISSED while all chains
+#       had month=0; chains now carry month 0/1/2.
 # Note: st.one_of() de-duplicates repeated strategy objects; op weights use distinct .map wrappers.
-# Unchanged tree: exit 0 for VERIF_SEED=1..5 (6000 histories, about 290 CPU-seconds: 33 s wall measured on a lightly
-# loaded box, 64-93 s measured with load average 45 on 16 cores), 44-48% of the histories satisfy the non-trivial rule.
+# Unchanged tree: exit 0 for VERIF_SEED=1..5 (6000 histories, 39-51 s wall measured with load average 13-23 on 16
+# cores), 39-43% of the histories satisfy the non-trivial rule.
